@@ -1353,6 +1353,29 @@ let linker_copy_M k h r =
      | _ -> None)
   | None -> None
 
+(** val reindex_cells :
+    heap -> (z * val0) list -> (z * z) list -> z -> nat list -> (heap * val0
+    list) option **)
+
+let rec reindex_cells h old_cells positions fill = function
+| [] -> Some (h, [])
+| i :: rest ->
+  let v0 =
+    match assoc_get (Z.of_nat i) positions with
+    | Some old ->
+      (match cell_get old old_cells with
+       | Some v0 -> v0
+       | None -> VS fill)
+    | None -> VS fill
+  in
+  (match deepcopy h v0 with
+   | Some p ->
+     let (h1, v') = p in
+     (match reindex_cells h1 old_cells positions fill rest with
+      | Some p0 -> let (h2, vs) = p0 in Some (h2, (v' :: vs))
+      | None -> None)
+   | None -> None)
+
 (** val reindex_vars :
     heap -> loc -> loc -> z list -> nat -> (z * z) list -> (z * z) list ->
     heap option **)
@@ -1368,24 +1391,20 @@ let rec reindex_vars h r r' names n' positions fills =
           let fill = match assoc_get x fills with
                      | Some f -> f
                      | None -> Z0 in
-          let cell = fun i ->
-            match assoc_get i positions with
-            | Some old ->
-              (match cell_get old oa.ocells with
-               | Some v0 -> v0
-               | None -> VS fill)
-            | None -> VS fill
-          in
-          let cells = map (fun i -> cell (Z.of_nat i)) (seq O n') in
-          let lnew = length h in
-          let h1 = app h ({ okind = oa.okind; ocells = (enum cells) } :: [])
-          in
-          (match nth_error h1 r' with
-           | Some o' ->
-             reindex_vars
-               (set_obj h1 r' { okind = o'.okind; ocells =
-                 (cell_set (v x) (VR lnew) o'.ocells) }) r r' rest n'
-               positions fills
+          (match reindex_cells h oa.ocells positions fill (seq O n') with
+           | Some p ->
+             let (h0, cells) = p in
+             let lnew = length h0 in
+             let h1 =
+               app h0 ({ okind = oa.okind; ocells = (enum cells) } :: [])
+             in
+             (match nth_error h1 r' with
+              | Some o' ->
+                reindex_vars
+                  (set_obj h1 r' { okind = o'.okind; ocells =
+                    (cell_set (v x) (VR lnew) o'.ocells) }) r r' rest n'
+                  positions fills
+              | None -> None)
            | None -> None)
         | None -> None)
      | None -> None)
@@ -1398,11 +1417,20 @@ let reindex_M k h r span n' positions fills =
   match copy_M k h r with
   | Some p ->
     let (h1, r') = p in
-    (match run_action h1 r' (ASet ([], (a n_span), span)) with
-     | Some h2 ->
-       (match reindex_vars h2 r r' (scalars_path h2 r' ((a n_index) :: []))
-                n' positions fills with
-        | Some h3 -> Some (h3, r')
+    (match eval_src h1 r' span with
+     | Some p0 ->
+       let (ha, v0) = p0 in
+       (match deepcopy ha v0 with
+        | Some p1 ->
+          let (hb, v') = p1 in
+          (match run_action hb r' (ASet ([], (a n_span), (val_src v'))) with
+           | Some h2 ->
+             (match reindex_vars h2 r r'
+                      (scalars_path h2 r' ((a n_index) :: [])) n' positions
+                      fills with
+              | Some h3 -> Some (h3, r')
+              | None -> None)
+           | None -> None)
         | None -> None)
      | None -> None)
   | None -> None
